@@ -165,6 +165,8 @@ impl<F: Future + 'static> TaskAlloc<F> {
         // SAFETY: The caller guarantees that the pointer is valid and properly aligned
         // for `TaskAlloc<F>`, and that no other reference to the allocation
         // exists.
+        #[cfg(compio_verif)]
+        compio_log::verif::point("exec.task.dealloc", header.as_ptr() as u64, 0);
         drop(unsafe { Box::from_raw(header.as_ptr().cast::<TaskAlloc<F>>()) });
     }
 }
@@ -195,6 +197,13 @@ impl Task {
         // SAFETY: The pointer was returned by `Box`, which guarantees that it's
         // non-null and properly aligned.
         let ptr = unsafe { NonNull::new_unchecked(Box::into_raw(alloc) as _) };
+        #[cfg(compio_verif)]
+        {
+            let h: NonNull<Header> = ptr;
+            let st = unsafe { &raw const (*h.as_ptr()).state } as u64;
+            compio_log::verif::point("exec.task.new", h.as_ptr() as u64, st);
+            compio_log::verif::point("exec.task.id", h.as_ptr() as u64, slotmap::Key::data(&id).as_ffi());
+        }
 
         array::from_fn(|_| Task(ptr))
     }
@@ -282,6 +291,8 @@ impl Task {
                 // get the result, or not observe it and enter SETTING_WAKER critical section.
                 if state.has_waker() && !state.is_setting_waker() {
                     trace!("Waking up JoinHandle");
+                    #[cfg(compio_verif)]
+                    compio_log::verif::point("exec.task.wake_joiner", self.0.as_ptr() as u64, 0);
                     header
                         .waker
                         .with_mut(|ptr| unsafe { (*ptr).assume_init_ref() }.wake_by_ref());
@@ -331,6 +342,8 @@ impl Task {
         );
         let state = header.state.set_dropped();
 
+        #[cfg(compio_verif)]
+        compio_log::verif::point("exec.task.null_shared", self.0.as_ptr() as u64, 0);
         header.shared.store(ptr::null_mut(), Release);
 
         // Dropping the future/result and waker during unwinding on unwind-unsafe
@@ -353,6 +366,8 @@ impl Task {
             trace!("Dropping waker");
             crate::panic_guard!();
 
+            #[cfg(compio_verif)]
+            compio_log::verif::point("exec.task.drop_waker", self.0.as_ptr() as u64, 0);
             header
                 .waker
                 .with_mut(|ptr| unsafe { drop_in_place(ptr.cast::<Waker>()) });
@@ -439,6 +454,8 @@ impl Drop for Task {
         if state.has_waker() {
             trace!("Dropping waker");
 
+            #[cfg(compio_verif)]
+            compio_log::verif::point("exec.task.drop_waker_last", self.0.as_ptr() as u64, 0);
             header
                 .waker
                 .with_mut(|ptr| unsafe { drop_in_place(ptr.cast::<Waker>()) });
